@@ -265,10 +265,27 @@ def seed_labels() -> Tuple[Doc, Dict[str, Any]]:
                    catalog_extra={"PageLabels": root}), {"nav": True}
 
 
+def seed_forms() -> Tuple[Doc, Dict[str, Any]]:
+    """a chain of form XObjects, each with its own resources, drawing the next one: page -> A -> B -> C -> D -> E."""
+    doc = Doc()
+    f1 = doc.add(font_type1("Helvetica"))
+    nxt = None
+    for i, name in enumerate(["E", "D", "C", "B", "A"]):
+        res: Dict[str, Any] = {"Font": {"F1": f1}}
+        content = b"BT /F1 %d Tf 2 %d Td (form %s) Tj ET" % (6 + i, 4 + i, name.encode())
+        if nxt is not None:
+            res["XObject"] = {"Nx": nxt}
+            content = b"q 1 0 0 1 3 3 cm /Nx Do Q " + content
+        nxt = doc.add(Stream({"Type": N("XObject"), "Subtype": N("Form"), "BBox": [0, 0, 100 + 10 * i, 100 + 10 * i], "Resources": res},
+                             content))
+    c = doc.add(Stream({}, b"q /Fa Do Q BT /F1 10 Tf 20 280 Td (forms page) Tj ET"))
+    return _finish(doc, [{"Resources": {"Font": {"F1": f1}, "XObject": {"Fa": nxt}}, "Contents": c}]), {}
+
+
 SEEDS: List[Tuple[str, Callable[[], Tuple[Doc, Dict[str, Any]]]]] = [
     ("basic", seed_basic), ("xrefstm", seed_xrefstm), ("type0", seed_type0), ("type3", seed_type3), ("rc4", seed_rc4),
     ("aes", seed_aes), ("aes256", seed_aes256), ("graphics", seed_graphics), ("nav", seed_nav), ("filters", seed_filters),
-    ("ccitt", seed_ccitt), ("labels", seed_labels),
+    ("ccitt", seed_ccitt), ("labels", seed_labels), ("forms", seed_forms),
 ]
 
 
